@@ -43,6 +43,12 @@ package expressions
 //@ assigns nothing
 //@ ensures one: (result1 == nil) != (result0 == nil)
 
+// What evaluating an expression leaves alone: every object that exists when the evaluation
+// starts keeps its contents in these heaps (captured variables, slices of values, the
+// bindings and filter maps, the context). For filters called through reflection this is an
+// assumption; for the evaluators under contract it is an obligation (impl).
+//@ macro evalframe = sameold("P$Fn") && sameold("P$Val") && sameold("S$Val") && sameold("S$Fn") && sameold("M$has$Str$Val") && sameold("M$val$Str$Val") && sameold("F$expressions.context$Config") && sameold("F$expressions.context$bindings")
+
 // ---- evaluators (C08) --------------------------------------------------------------------
 // The grammar actions assemble closures of this type; each returns a non-nil Value or
 // panics with one of the typed panic values that expression.Evaluate turns into errors.
@@ -52,14 +58,14 @@ package expressions
 //@ assigns *
 //@ panics values.TypeError, expressions.InterpreterError, expressions.UndefinedFilter, expressions.FilterError
 //@ ensures nonnil: result != nil
-//@ ensures cells: sameold("P$Fn") && sameold("P$Val")
+//@ ensures cells: @evalframe
 //@ func functype expressions.valueFn
 //@ names ctx
 //@ requires args: ctx != nil
 //@ assigns *
 //@ panics values.TypeError, expressions.InterpreterError, expressions.UndefinedFilter, expressions.FilterError
 //@ ensures nonnil: result != nil
-//@ ensures cells: sameold("P$Fn") && sameold("P$Val")
+//@ ensures cells: @evalframe
 
 // a[i]: evaluate the sequence, then the index, then one IndexValue step on exactly those
 //@ func expressions.makeIndexExpr$1
@@ -97,3 +103,81 @@ package expressions
 //@ panics nothing
 //@ requires args: objFn != nil
 //@ ensures nonnil: result != nil
+
+// a name denotes its binding (through ToLiquid); an undefined name is nil
+//@ func (*expressions.context).Get
+//@ props C08 C18 C01
+//@ panics nothing
+//@ requires recv: ctx != nil
+//@ assigns nothing
+//@ ensures undefined: !has(ctx.bindings, name) ==> result == nil
+//@ ensures bound: has(ctx.bindings, name) ==> result == values.ToLiquid(mapget(ctx.bindings, name))
+
+// x | f: a, b — one ApplyFilter step; a filter error becomes a FilterError panic (turned
+// into an error by expression.Evaluate)
+//@ func expressions.makeFilter$1
+//@ expect func(ctx expressions.Context) values.Value
+//@ implements expressions.valueFn
+//@ props C08 C01
+//@ panics values.TypeError, expressions.InterpreterError, expressions.UndefinedFilter, expressions.FilterError
+//@ requires captured: fn != nil && forall(k, 0, len(args), args[k] != nil)
+//@ ghost out Val = nil
+//@ ghost ferr Val = nil
+//@ at call ApplyFilter #1 before assert operands: arg0 == name && arg1 == fn && arg2 == args
+//@ at call ApplyFilter #1: out = result0
+//@ at call ApplyFilter #1: ferr = result1
+//@ at call ValueOf #1 before assert noError: ferr == nil && arg0 == out
+//@ ensures step: result != nil && ferr == nil
+
+//@ interface expressions.Context
+//@ method ApplyFilter
+//@ requires args: arg1 != nil && forall(k, 0, len(arg2), arg2[k] != nil)
+//@ assigns *
+//@ panics values.TypeError, expressions.InterpreterError, expressions.UndefinedFilter, expressions.FilterError
+//@ ensures cells: @evalframe
+//@ method Get
+//@ requires recv: is(this, *expressions.context) ==> pl_ptr(this) != 0
+//@ assigns nothing
+
+// ASSUMPTION (listed in evidence): no registered filter has a parameter of the closure
+// interface type. This is true of every standard filter; AddFilter with such a parameter
+// (an argument that is parsed as an expression at render time) is outside the claim.
+//@ func expressions.isClosureInterfaceType
+//@ unverified
+//@ pure
+//@ props C08 C01
+//@ ensures standardFiltersOnly: !result
+
+//@ typeinv expressions.context: forall(k, "Str", has(self.Config.filters, k) ==> kind(mapget(self.Config.filters, k)) == reflect.Func)
+
+// Call converts the arguments to the filter's parameter types and calls it through
+// reflection; the filter itself is outside the contracts. More arguments than parameters is
+// a CallParityError (proved on convertCallArguments).
+//@ func values.Call
+//@ unverified
+//@ props C08 C01
+//@ assigns *
+//@ panics values.TypeError
+//@ ensures cells: @evalframe
+//@ ensures parityErr: is(result1, *values.CallParityError) ==> pl_ptr(result1) != 0
+//@ ensures parity: !tvariadic(typeof(rv_val(fn))) && len(args) > tnumin(typeof(rv_val(fn))) ==> result1 != nil
+
+// x | f: a, b: the filter is looked up by name (unknown: UndefinedFilter), the receiver and
+// then each argument expression are evaluated once, in order, in the current bindings, and
+// the filter is called once with exactly those values.
+//@ func (*expressions.context).ApplyFilter
+//@ props C08 C01
+//@ panics values.TypeError, expressions.InterpreterError, expressions.UndefinedFilter, expressions.FilterError
+//@ requires recv: ctx != nil && receiver != nil
+//@ requires params: forall(k, 0, len(params), params[k] != nil)
+//@ assigns *
+//@ ghost nargs Int = 0
+//@ at call receiver #1 before assert receiverFirst: nargs == 0 && arg0 == box(ctx, *expressions.context) && has(ctx.Config.filters, name)
+//@ at call receiver #1: nargs = 1
+//@ at call param #* before assert inOrder: nargs == 1 + i && arg0 == box(ctx, *expressions.context)
+//@ at call param #*: nargs = nargs + 1
+//@ at call Call #1 before assert allArgs: nargs == 1 + len(params) && len(arg1) == nargs && arg0 == reflect.ValueOf(mapget(ctx.Config.filters, name))
+//@ loop 1 invariant frame: @evalframe
+//@ loop 1 invariant count: nargs == 1 + _i && len(args) == nargs && fresh(args) && has(ctx.Config.filters, name)
+//@ ensures known: has(ctx.Config.filters, name)
+//@ ensures cells: @evalframe
